@@ -165,6 +165,14 @@ Proof.
              | context [match ?x with _ => _ end] => destruct x; try discriminate E
              | context [if ?x then _ else _] => destruct x; try discriminate E
              end; inversion E; subst; auto.
+  - unfold noeff in H. destruct (hwait_step s j i) eqn:E; inversion H; subst.
+    unfold hwait_step in E. destruct (nth_error (hctxs s) j) as [h|]; [|discriminate].
+    unfold calls_ok in *. cbv zeta in E.
+    destruct (k_pc h); try discriminate;
+      repeat match type of E with
+             | context [match ?x with _ => _ end] => destruct x; try discriminate E
+             | context [if ?x then _ else _] => destruct x; try discriminate E
+             end; inversion E; subst; auto.
 Qed.
 
 
@@ -273,7 +281,7 @@ Definition a_rank (a : apc) : nat := match a with A1 => 4 | A2 => 3 | A2w => 2 |
 Definition h_rank (h : hpc) : nat := match h with HBound _ => 3 | H0 _ => 2 | H1 => 1 | _ => 0 end.
 Definition c_rank (c : call) : nat := a_rank (c_a c) + h_rank (c_h c) + (if c_vis c then 0 else 1).
 Definition k_rank (h : hctx) : nat :=
-  match k_pc h with K0 => 5 | K1 => 4 | K2 => 3 | K2w => 2 | K4 => 1 | KDone => 0 end.
+  match k_pc h with K0 => 6 | K1w _ => 5 | K1 => 4 | K2 => 3 | K2w => 2 | K4 => 1 | KDone => 0 end.
 
 Fixpoint sumf {A} (f : A -> nat) (l : list A) : nat :=
   match l with [] => 0 | x :: r => f x + sumf f r end.
